@@ -107,21 +107,47 @@ func r14_1(c *Ctx, r *Report) {
 		if fn == nil {
 			continue
 		}
-		got := ""
-		var argDesc []string
+		// the key handed to the string-keyed lookup (GetHoliday, find*) is evaluated for small and large components, helpers inline
+		nargs := strings.Count(t.format, "%")
+		var keys []ssa.Value
 		for _, b := range fn.Blocks {
 			for _, ins := range b.Instrs {
-				if call, f, args, ok := sprintfCall(valueOf(ins)); ok {
-					_ = call
-					got = f
-					for _, a := range args {
-						argDesc = append(argDesc, describeArg(c, fn, a))
-					}
+				if call, ok := ins.(*ssa.Call); ok && call.Common().StaticCallee() != nil && call.Common().StaticCallee().Pkg == fn.Pkg && len(call.Common().Args) == 1 && isStringType(call.Common().Args[0].Type()) && len(call.Common().StaticCallee().Params) == 1 && !isStringType(call.Type()) {
+					keys = append(keys, call.Common().Args[0])
 				}
 			}
 		}
-		wantArgs := []string{"p0", "p1", "p2"}[:strings.Count(t.format, "%")]
-		r.check(got == t.format && equalStrs(argDesc, wantArgs), rule, t.fn+" builds its key with "+t.format, c.fnPos(fn), fmt.Sprintf("format %q over %v", got, argDesc))
+		var bad []string
+		if len(keys) != 1 || len(fn.Params) != nargs {
+			bad = append(bad, fmt.Sprintf("%d scan calls with one key argument found, %d parameters (undecided = fail)", len(keys), len(fn.Params)))
+		} else {
+			for _, v := range [][]int64{{5, 3, 7}, {2021, 12, 31}, {321, 10, 9}} {
+				leaf := func(fr *evalFrame, x ssa.Value) (interface{}, bool) {
+					if fr.parent == nil {
+						for i, p := range fn.Params {
+							if x == ssa.Value(p) {
+								return v[i], true
+							}
+						}
+					}
+					return nil, false
+				}
+				got, ok := evalWith(&evalFrame{fn: fn}, keys[0], leaf)
+				var args []interface{}
+				for i := 0; i < nargs; i++ {
+					args = append(args, v[i])
+				}
+				want := fmt.Sprintf(t.format, args...)
+				if !ok {
+					bad = append(bad, "the key expression could not be evaluated (undecided = fail)")
+					break
+				}
+				if got != interface{}(want) {
+					bad = append(bad, fmt.Sprintf("%v gives key %q, the table's key is %q", v[:nargs], got, want))
+				}
+			}
+		}
+		r.check(len(bad) == 0, rule, t.fn+" builds its key with "+t.format, c.fnPos(fn), fmt.Sprintf("3 argument tuples evaluated; deviations: %v", headList(bad, 2)))
 	}
 }
 
@@ -205,8 +231,17 @@ func r14_3(c *Ctx, r *Report) {
 		return
 	}
 	g := c.Global("HolidayUtil", "dataInUse")
+	// Fix and the unexported helpers only Fix calls
+	set := map[string]map[string]bool{"w": {"HolidayUtil.Fix": true}}
+	c.closeOverHelpers(set)
+	var blocks []*ssa.BasicBlock
+	for _, f := range c.Funcs {
+		if set["w"][fname(f)] {
+			blocks = append(blocks, f.Blocks...)
+		}
+	}
 	n := 0
-	for _, b := range fn.Blocks {
+	for _, b := range blocks {
 		for _, ins := range b.Instrs {
 			st, ok := ins.(*ssa.Store)
 			if !ok || st.Addr != ssa.Value(g) {
@@ -241,11 +276,11 @@ func r14_3(c *Ctx, r *Report) {
 		}
 	}
 	if n < 3 {
-		r.bad(rule, "instance floor R14.3", c.fnPos(fn), fmt.Sprintf("only %d stores to dataInUse found in Fix", n))
+		r.bad(rule, "instance floor R14.3", c.fnPos(fn), fmt.Sprintf("only %d stores to dataInUse found in Fix and its helpers", n))
 	}
 	// the sorted insert compares day keys
 	cmpKeys := false
-	for _, b := range fn.Blocks {
+	for _, b := range blocks {
 		for _, ins := range b.Instrs {
 			if bo, ok := ins.(*ssa.BinOp); ok && bo.Op == token.LSS {
 				if _, ok := bo.X.(*ssa.Slice); ok {
